@@ -119,6 +119,9 @@ def lean_type(t):
         return f'{lean_type(dom)} → {lean_type(cod)}'
     if t.startswith('Set '):
         return 'List ' + _paren(lean_type(t[4:]))
+    if t.startswith('DDL '):                       # defaultdict(list): insertion-ordered (key, list of values) pairs
+        k, v = _prod_parts('Prod ' + t[4:])
+        return f'List ({lean_type(k)} × List {_paren(lean_type(v))})'
     if t.startswith('Opt ') and t not in LEAN_TYPE:
         return 'Option ' + _paren(lean_type(t[4:]))
     if t.startswith('Tuple') and ' ' in t:
@@ -130,7 +133,20 @@ def lean_type(t):
 
 
 def _paren(s):
-    return f'({s})' if ' ' in s and not s.startswith('(') else s
+    return f'({s})' if ' ' in s and not _wrapped(s) else s
+
+
+def _wrapped(s):
+    """`s` is one parenthesised group: its first `(` closes at its last character"""
+    if not (s.startswith('(') and s.endswith(')')):
+        return False
+    depth = 0
+    for i, ch in enumerate(s):
+        depth += ch == '('
+        depth -= ch == ')'
+        if depth == 0 and i < len(s) - 1:
+            return False
+    return True
 
 
 LEAN_RESERVED = {'end', 'at', 'from', 'in', 'then', 'else', 'do', 'let', 'fun', 'match', 'with', 'where', 'instance', 'class',
@@ -326,6 +342,10 @@ class FnTr:
         s, rest = stmts[0], stmts[1:]
         if isinstance(s, (ast.Pass, ast.Import, ast.ImportFrom)):
             return self.block(rest)
+        if isinstance(s, ast.Continue):
+            if self.on_fall is None:
+                raise Unsupported(f'`{self.inst.qual}`: `continue` outside a translated loop')
+            return self.on_fall(self)             # the next iteration with the current state; what follows is not run
         if isinstance(s, ast.Expr):
             if isinstance(s.value, ast.Constant):
                 return self.block(rest)
@@ -359,7 +379,27 @@ class FnTr:
                     raise Unsupported(f'append of {v.typ} to {old.typ}')
                 nm = self.gensym(lname(n))
                 self.env[n] = Val(nm, old.typ, path=n)
-                return f'let {nm} := ({old.text} ++ [{v.text}])\n' + self.block(rest)
+                pend, self.pending = self.pending, []      # raising calls inside the appended value: bound first
+                inner = self.block(rest)
+                self.pending = pend
+                return self.wrap(f'let {nm} := ({old.text} ++ [{v.text}])\n' + inner)
+            if isinstance(c, ast.Call) and isinstance(c.func, ast.Attribute) and c.func.attr == 'append' and len(c.args) == 1 \
+                    and isinstance(c.func.value, ast.Subscript) and isinstance(c.func.value.value, ast.Name) \
+                    and c.func.value.value.id in self.env and self.env[c.func.value.value.id].typ.startswith('DDL '):
+                # `d[k].append(v)` on a local `defaultdict(list)`
+                n = c.func.value.value.id
+                old = self.env[n]
+                kt, vt = _prod_parts('Prod ' + old.typ[4:])
+                k = self.expr(c.func.value.slice)
+                v = self.expr(c.args[0])
+                if (k.typ, v.typ) != (kt, vt):
+                    raise Unsupported(f'`{ast.unparse(s)}`: ({k.typ}, {v.typ}) into {old.typ}')
+                nm = self.gensym(lname(n))
+                self.env[n] = Val(nm, old.typ, path=n)
+                pend, self.pending = self.pending, []
+                inner = self.block(rest)
+                self.pending = pend
+                return self.wrap(f'let {nm} := (GV.Py.ddAppend {old.text} {_paren(k.text)} {_paren(v.text)})\n' + inner)
             hook = self.u.hooks.get('expr_stmt')
             if hook and hook(self, s.value):
                 return self.block(rest)
@@ -544,7 +584,10 @@ class FnTr:
                         raise Unsupported(f'`{self.inst.qual}`: unpacking into `{ast.unparse(t)}`')
                     self.env[t.id] = Val(f'{tmp}.{i + 1}', parts[i], path=t.id)
                     self.narrow.pop(t.id, None)
-                return self.wrap(f'let {tmp} := {v.text}\n' + self.block(rest))
+                pend, self.pending = self.pending, []
+                inner = self.block(rest)
+                self.pending = pend
+                return self.wrap(f'let {tmp} := {v.text}\n' + inner)
             if not (v.typ.startswith('Tuple') and v.typ.split()[0] == f'Tuple{n}'):
                 raise Unsupported(f'`{self.inst.qual}`: tuple assignment from a non-tuple')
             et = v.typ.split(' ', 1)[1]
@@ -721,7 +764,11 @@ class FnTr:
             if isinstance(n, ast.Expr) and isinstance(n.value, ast.Call) and isinstance(n.value.func, ast.Attribute) \
                     and n.value.func.attr in ('add', 'append') and isinstance(n.value.func.value, ast.Name):
                 assigned.add(n.value.func.value.id)
-            if isinstance(n, (ast.While, ast.Break, ast.Continue, ast.Try, ast.With)):
+            if isinstance(n, ast.Expr) and isinstance(n.value, ast.Call) and isinstance(n.value.func, ast.Attribute) \
+                    and n.value.func.attr == 'append' and isinstance(n.value.func.value, ast.Subscript) \
+                    and isinstance(n.value.func.value.value, ast.Name):
+                assigned.add(n.value.func.value.value.id)          # `d[k].append(v)`
+            if isinstance(n, (ast.While, ast.Break, ast.Try, ast.With)):
                 raise Unsupported(f'`{self.inst.qual}`: `{type(n).__name__}` inside a loop body')
         targets = [s.target.id] if isinstance(s.target, ast.Name) else \
             [t.id for t in s.target.elts if isinstance(t, ast.Name)] if isinstance(s.target, ast.Tuple) else None
@@ -903,7 +950,13 @@ class FnTr:
                     return f'some {_paren(body)}' if typ != t else body
                 txt = _re.sub('\x00(\\d+)\x01(.*?)\x02', fix, txt, flags=_re.S)
                 return Val(f'({txt})', typ)
+            if self.inst.raises:
+                r = self.ifexp_raising(e)
+                if r is not None:
+                    return r
             a, b = self.expr(e.body), self.expr(e.orelse)
+            if {a.typ, b.typ} == {'R', 'Int'}:
+                a, b = self.unify_num(a, b)               # `0 if c else x` next to a float: the same number
             if a.typ != b.typ:
                 raise Unsupported(f'conditional expression of types {a.typ} / {b.typ}')
             return Val(f'(if {self.truth(self.expr(e.test))} then {a.text} else {b.text})', a.typ)
@@ -918,6 +971,10 @@ class FnTr:
                 if isinstance(e.op, ast.Div):
                     return Val(f'({a.text} / {b.text})', 'N')
                 return Val(f'(GV.Sphere.pymod {a.text} {b.text})', 'N')      # Python's float `%`
+            if a.typ == b.typ == 'R' and isinstance(e.op, ast.Div):
+                r = Val(f'(GV.Py.divR {a.text} {b.text})', 'R')              # ZeroDivisionError on a zero divisor
+                r.raises = True
+                return r
             raise Unsupported(f'`{ast.unparse(e)[:60]}`: {a.typ} {type(e.op).__name__} {b.typ}')
         if isinstance(e, ast.BinOp) and isinstance(e.op, (ast.Add, ast.Sub, ast.Mult)):
             a, b = self.expr(e.left), self.expr(e.right)
@@ -978,9 +1035,17 @@ class FnTr:
                     r = Val(f'(GV.Py.getIdx {_paren(v.text)} {sl.value})', v.typ[5:])
                     r.raises = True                      # IndexError when the list is too short
                     return r
+                if not isinstance(sl, ast.Slice):
+                    i = self.expr(sl)                    # `xs[-1]`, `xs[i]` for an int `i`: Python's index rule
+                    if i.typ == 'Int':
+                        r = Val(f'(GV.Py.getIdxI {_paren(v.text)} {i.text})', v.typ[5:])
+                        r.raises = True
+                        return r
             raise Unsupported(f'`{self.inst.qual}`: subscript `{ast.unparse(e)}` of {v.typ}')
         if isinstance(e, ast.ListComp):
             return self.list_comp(e)
+        if isinstance(e, ast.DictComp):
+            return self.dict_comp(e)
         if isinstance(e, ast.Call):
             return self.call(e)
         raise Unsupported(f'`{self.inst.qual}`: expression `{ast.unparse(e)[:80]}` ({type(e).__name__})')
@@ -1134,6 +1199,33 @@ class FnTr:
                 return self.expr(e.args[0])           # the value handed to hash()
             if f.id == 'set' and not e.args:
                 return Val('[]', 'Set ?')
+            if f.id == 'defaultdict' and len(e.args) == 1 and isinstance(e.args[0], ast.Name) and e.args[0].id == 'list':
+                return Val('[]', 'DDL ?')
+            if f.id == 'len' and len(e.args) == 1:
+                v = self.expr(e.args[0])
+                if v.typ.startswith('List '):
+                    return Val(f'(GV.Py.len {v.text})', 'Int')
+                raise Unsupported(f'len() of {v.typ}')
+            if f.id == 'range' and len(e.args) in (1, 2):
+                vals = [self.expr(a) for a in e.args]
+                if all(v.typ == 'Int' for v in vals):
+                    lo = vals[0].text if len(vals) == 2 else '(0 : Int)'
+                    return Val(f'(GV.Py.rangeI {lo} {vals[-1].text})', 'List Int')
+                raise Unsupported('range() of ' + ', '.join(v.typ for v in vals))
+            if f.id == 'sum' and len(e.args) == 1:
+                v = self.expr(e.args[0])
+                if v.typ == 'List R':
+                    return Val(f'(GV.Py.sumR {v.text})', 'R')
+                raise Unsupported(f'sum() of {v.typ}')
+            if f.id == 'list' and len(e.args) == 1 and isinstance(e.args[0], ast.Call) and isinstance(e.args[0].func, ast.Name) \
+                    and e.args[0].func.id == 'zip' and len(e.args[0].args) == 1 and isinstance(e.args[0].args[0], ast.Starred):
+                v = self.expr(e.args[0].args[0].value)          # `list(zip(*pairs))`: the two columns
+                parts = _prod_parts(v.typ[5:]) if v.typ.startswith('List Prod ') else []
+                if len(parts) != 2:
+                    raise Unsupported(f'zip(*…) of {v.typ}')
+                r = Val(f'(GV.Py.unzip2 {v.text})', f'Prod {_paren("List " + parts[0])} {_paren("List " + parts[1])}')
+                r.raises = True                                  # unpacking the columns of an empty list: ValueError
+                return r
             if f.id in ('any', 'all') and len(e.args) == 1 and isinstance(e.args[0], ast.GeneratorExp):
                 return self.any_all(f.id, e.args[0])
             if f.id == 'isinstance':
@@ -1172,6 +1264,11 @@ class FnTr:
                 r = hook(self, recv, f.attr, e.args)
                 if r is not None:
                     return r
+            if recv.typ.startswith('DDL ') and f.attr == 'items' and not e.args:
+                kt, vt = _prod_parts('Prod ' + recv.typ[4:])
+                return Val(recv.text, f'List Prod {_paren(kt)} {_paren("List " + vt)}')
+            if recv.typ.startswith('List ') and f.attr == 'copy' and not e.args:
+                return Val(recv.text, recv.typ)           # a list is a value here
             args = [self.expr(a) for a in e.args]
             ab = self.u.abstract.get((recv.typ, f.attr, tuple(a.typ for a in args)))
             if ab:
@@ -1201,6 +1298,8 @@ class FnTr:
             if xss.typ.startswith('List List '):
                 return Val(f'(({xss.text}).flatten)', xss.typ[5:])
             raise Unsupported(f'flattening of {xss.typ}')
+        if len(g) == 1 and not g[0].ifs:
+            return self.map_comp(e)                # `[f(x) for x in xs]`, `[f(x, y) for x, y in zip(xs, ys)]`
         if len(e.generators) != 1 or not isinstance(e.generators[0].target, ast.Name) or len(e.generators[0].ifs) != 1 \
                 or not (isinstance(e.elt, ast.Name) and e.elt.id == e.generators[0].target.id):
             raise Unsupported(f'`{self.inst.qual}`: comprehension other than `[x for x in xs if c]`')
@@ -1228,6 +1327,91 @@ class FnTr:
             # the instance may raise but this test can not: undo the `.ok` wrapping of the branch leaves
             body = body.replace('Except.ok true', 'true').replace('Except.ok false', 'false')
         return Val(f'(({xs.text}).filter (fun {x} =>\n{_indent(body, 4)}))', xs.typ)
+
+    def map_comp(self, e):
+        """`[f(x) for x in xs]` -> `xs.map`; the element expression must not raise"""
+        gen = e.generators[0]
+        xs = self.expr(gen.iter)
+        if not xs.typ.startswith('List '):
+            raise Unsupported(f'comprehension over {xs.typ}')
+        tgt = gen.target
+        pair = isinstance(tgt, ast.Tuple) and len(tgt.elts) == 2 and all(isinstance(t, ast.Name) for t in tgt.elts)
+        if not (isinstance(tgt, ast.Name) or pair):
+            raise Unsupported(f'`{self.inst.qual}`: comprehension target `{ast.unparse(tgt)}`')
+        x = self.gensym(lname(tgt.id) if not pair else 'pair')
+        inner = self.sub()
+        inner.fresh = self.fresh
+        if pair:
+            parts = _prod_parts(xs.typ[5:])
+            if len(parts) != 2:
+                raise Unsupported(f'unpacking {xs.typ[5:]} into two names')
+            for i, t in enumerate(tgt.elts):
+                inner.env[t.id] = Val(f'{x}.{i + 1}', parts[i], path=t.id)
+        else:
+            inner.env[tgt.id] = Val(x, xs.typ[5:], path=tgt.id)
+        v = inner.expr(e.elt, allow_raise=True)
+        if inner.pending or getattr(v, 'raises', False):
+            raise Unsupported(f'`{self.inst.qual}`: a call that may raise inside `{ast.unparse(e)[:60]}`')
+        self.fresh = inner.fresh
+        return Val(f'(({xs.text}).map (fun {x} => {v.text}))', 'List ' + v.typ)
+
+    def dict_comp(self, e):
+        """`{k: v for a in xs for k, v in <pairs of a>}` / `{k: v for k, v in <pairs>}`: later pairs overwrite in place"""
+        g = e.generators
+        last = g[-1]
+        ok = (len(g) in (1, 2) and not any(x.ifs for x in g) and isinstance(last.target, ast.Tuple) and len(last.target.elts) == 2
+              and all(isinstance(t, ast.Name) for t in last.target.elts)
+              and isinstance(e.key, ast.Name) and isinstance(e.value, ast.Name)
+              and [e.key.id, e.value.id] == [t.id for t in last.target.elts] and e.key.id != e.value.id
+              and (len(g) == 1 or isinstance(g[0].target, ast.Name)))
+        if not ok:
+            raise Unsupported(f'`{self.inst.qual}`: dict comprehension `{ast.unparse(e)[:80]}`')
+        if len(g) == 1:
+            pairs = self.expr(last.iter)
+            text = pairs.text
+        else:
+            xs = self.expr(g[0].iter)
+            if not xs.typ.startswith('List '):
+                raise Unsupported(f'comprehension over {xs.typ}')
+            x = self.gensym(lname(g[0].target.id))
+            inner = self.sub()
+            inner.fresh = self.fresh
+            inner.env[g[0].target.id] = Val(x, xs.typ[5:], path=g[0].target.id)
+            pairs = inner.expr(last.iter)
+            if inner.pending:
+                raise Unsupported(f'`{self.inst.qual}`: a call that may raise inside a dict comprehension')
+            self.fresh = inner.fresh
+            text = f'(({xs.text}).flatMap (fun {x} => {pairs.text}))'
+        if pairs.typ != 'List Prod Str PVal':
+            raise Unsupported(f'dict comprehension over {pairs.typ}')
+        return Val(f'(GV.Py.dictOf {text})', 'Props')
+
+    def ifexp_raising(self, e):
+        """`a if c else b` where an arm holds a call that may raise: the call is made only when its arm is chosen"""
+        ta, tb = self.sub(), self.sub()
+        ta.fresh = tb.fresh = self.fresh + 1000           # scratch translation: names must not collide with the caller's
+        try:
+            ta.expr(e.body), tb.expr(e.orelse)
+        except Unsupported:
+            return None
+        if not (ta.pending or tb.pending):
+            return None
+        c = self.truth(self.expr(e.test))                 # the test is evaluated first (its own raising calls are bound outside)
+        ta, tb = self.sub(), self.sub()
+        ta.fresh = tb.fresh = self.fresh
+        a = ta.expr(e.body)
+        tb.fresh = ta.fresh
+        b = tb.expr(e.orelse)
+        self.fresh = tb.fresh
+        if {a.typ, b.typ} == {'R', 'Int'}:
+            a, b = self.unify_num(a, b)
+        if a.typ != b.typ:
+            raise Unsupported(f'conditional expression of types {a.typ} / {b.typ}')
+        arm_a = ta.wrap(f'Except.ok {_paren(a.text)}')
+        arm_b = tb.wrap(f'Except.ok {_paren(b.text)}')
+        r = Val(f'(if {c} then\n{_indent(arm_a)}\nelse\n{_indent(arm_b)})', a.typ)
+        r.raises = True
+        return r
 
     def any_all(self, which, g):
         tgt = g.generators[0].target if len(g.generators) == 1 else None
